@@ -54,6 +54,7 @@ def plan(tier):
                 units.append(('hist', r, i, j))
     for r in roots[:2]:
         units.append(('scale', r))
+    units.append(('unusable-containers',))
     for r in roots:
         for part in range(HUGE_PARTS):
             units.append(('scale-huge', r, part, tier != 'quick'))
@@ -146,6 +147,51 @@ def run_hist_unit(unit, tier):
 
 
 HUGE_PARTS = 4
+
+# encodings Python cannot use as text codecs (a name from another platform,
+# a number, a bytes-to-bytes codec): on a CONTAINER they matter only if a
+# section actually inherits them -- own encodings always win
+UNUSABLE = ['x-ibm-943c', '1252', 'hex', 'no-such-codec']
+
+
+def unusable_histories():
+    out = []
+    for bad in UNUSABLE:
+        for own in ('utf-8', 'utf-16', 'latin-1'):
+            out.append([['change', bad],
+                        ['preamble', 'é own\n', own, 4, None, None],
+                        ['meta', {'k': 'é'}, own],
+                        ['file', None], ['meta', {'p': 'q'}, own],
+                        ['diff', b'a\n', None, None, None],
+                        ['file', bad], ['meta', {'p': 'r'}, own],
+                        ['change', None],
+                        ['preamble', 'inherits main é\n', None, 4, None,
+                         None],
+                        ['file', bad], ['meta', {'p': 's'}, own],
+                        ['file', None], ['meta', {'p': 't'}, None]])
+    return out
+
+
+def run_unusable_unit(tier):
+    acc = Acc()
+    for root in ('utf-8', 'utf-16'):
+        for calls in unusable_histories():
+            viols, ex = check_history(calls, root)
+            acc.evals += 1
+            acc.states += 1
+            acc.transitions += len(calls)
+            acc.validated += 1
+            acc.nontrivial += 1
+            for k_, msg in viols:
+                acc.violation(k_ + ':unusable-container-encoding',
+                              '%s\nhistory %r' % (str(msg)[:600],
+                                                  [c[:3] for c in calls]),
+                              {'kind': 'history', 'root': root,
+                               'calls': to_jsonable(calls),
+                               'suffix': ':unusable-container-encoding'})
+            acc.outcome('ok' if not viols else 'violation')
+    acc.sample({'unusable_container_encodings': UNUSABLE}, 1)
+    return acc
 
 
 def _big_event(kind, enc, n):
@@ -249,6 +295,8 @@ def run_scale_unit(unit, tier):
 
 
 def run_unit(unit, tier):
+    if unit[0] == 'unusable-containers':
+        return run_unusable_unit(tier)
     if unit[0] == 'scale-huge':
         return run_huge_unit(unit, tier)
     if unit[0] == 'scale':
@@ -311,4 +359,6 @@ def replay(payload):
         return []
     calls = from_jsonable(payload['calls'])
     viols, ex = check_history(calls, payload['root'])
-    return [{'key': k.replace(' ', '_')[:200], 'msg': m} for k, m in viols]
+    suf = payload.get('suffix', '')
+    return [{'key': (k + suf).replace(' ', '_')[:200], 'msg': m}
+            for k, m in viols]
